@@ -9,6 +9,9 @@ package main
 //	read <hex>               bytes are appended to the transport backlog, then ONE src.ReadFrom(transport) as CodecConn.ReadNext
 //	                         does: at most Reserved() bytes enter the buffer, the rest stays in the backlog
 //	decode                   codec.Decode(src)
+//	commit <n>               src.Commit(n) by the caller: received bytes are already in the read area when Decode runs
+//	                         (what a caller does who fills the buffer with Write + Commit, or decodes from the buffer an
+//	                         encoder committed to)
 //	encfeed <fin> <rsv1> <rsv2> <rsv3> <opcode> <masked> <maskhex> <payloadhex>
 //	                         builds the frame with the library's Frame setters, encodes it with codec.Encode and
 //	                         feeds the encoder's output to src (Write)
@@ -229,6 +232,9 @@ func wsdecodeEmit(r *rng, w *bufio.Writer, data []byte, feedOp int) {
 			op = "read"
 		}
 		fmt.Fprintf(w, "! %s %s\n", op, wsdHex(seg))
+		if r.intn(6) == 0 { // the caller commits (part of) what was received, or more than that
+			fmt.Fprintf(w, "! commit %d\n", r.pick(len(seg), 1+r.intn(len(seg)+1), 1<<20, len(seg)+r.intn(40), 0, -1))
+		}
 		if r.intn(5) != 0 {
 			wsdecodeDrain(r, w)
 		}
@@ -275,7 +281,11 @@ func wsdecodeEnum(args []string, w *bufio.Writer) {
 			if (k+i)%3 == 0 {
 				op = "read"
 			}
-			fmt.Fprintf(w, "! %s %s\n! decode\n! decode\n! decode\n! decode\n", op, wsdHex(s))
+			fmt.Fprintf(w, "! %s %s\n", op, wsdHex(s))
+			if (k+2*i)%5 == 0 {
+				fmt.Fprintf(w, "! commit %d\n", 1<<20)
+			}
+			fmt.Fprintf(w, "! decode\n! decode\n! decode\n! decode\n")
 		}
 	}
 	for _, hs := range strs {
@@ -341,6 +351,9 @@ func wsdecodeRun(script []string, w *bufio.Writer) {
 				out = "ok"
 			case "feed":
 				src.Write(wsdUnhex(f[1]))
+				out = "ok"
+			case "commit":
+				src.Commit(atoi(f[1]))
 				out = "ok"
 			case "read":
 				tr.b = append(tr.b, wsdUnhex(f[1])...)
